@@ -39,9 +39,15 @@ class O2JToBMS(ConvertBase):
             bms.bpms = cls.cast(o2j.bpms, BMSBpmList, dict(offset="offset", bpm="bpm"))
             bms.stack().column += move_right_by
 
-            bms.title = codecs.encode(o2js.title, encoding="shift_jis")
-            bms.artist = codecs.encode(o2js.artist, encoding="shift_jis")
-            bms.version = codecs.encode(f"{o2js.level_name(o2j)}", encoding="shift_jis")
+            bms.title = codecs.encode(
+                o2js.title, encoding="shift_jis", errors="replace"
+            )
+            bms.artist = codecs.encode(
+                o2js.artist, encoding="shift_jis", errors="replace"
+            )
+            bms.version = codecs.encode(
+                f"{o2js.level_name(o2j)}", encoding="shift_jis", errors="replace"
+            )
 
             bmss.append(bms)
         return bmss
